@@ -205,6 +205,7 @@ Definition env_wf (m : menv) : Prop :=
 Inductive assumption :=
 | ANoErr (src : string)                  (* this call does not fail *)
 | AErrIs (src what : string) (b : bool)  (* errors.Is(err of src, what) = b *)
+| AErrOnly (src what : string)           (* if this call fails, then with this error *)
 | AFlag (f : string) (b : bool)          (* an option the model does not have has this value *)
 | AOpaque (name : string) (b : bool)     (* a condition the translator cannot read has this value *)
 | ANil (x : string) (b : bool)
@@ -214,6 +215,7 @@ Definition holds (m : menv) (a : assumption) : Prop :=
   match a with
   | ANoErr s => m_err m s = false
   | AErrIs s w b => m_err m (err_is_key s w) = b
+  | AErrOnly s w => m_err m s = true -> m_err m (err_is_key s w) = true
   | AFlag f b => m_flag m f = b
   | AOpaque n b => m_opq m n = b
   | ANil x b => m_nil m x = b
